@@ -339,21 +339,24 @@ func (r *Run) report(updateLock, verbose, noEvidence bool) int {
 		fmt.Printf("lock updated: %d names for %s\n", len(ns), r.cfg.ID)
 	}
 	cov := map[string]interface{}{
-		"obligations":              total,
-		"discharged":               discharged,
-		"checker_cmd":              fmt.Sprintf("/verif/check %s %s  (govc: VC generation over go/ast+go/types of %s; back ends z3-new 5.1.0, z3 4.8.12, cvc5 1.0, reglang derivatives)", r.cfg.ID, r.tier.Name, r.repo),
-		"trusted_base":             r.trustedBase(),
-		"functions_under_contract": e.verified,
-		"obligations_by_kind":      byKind,
-		"discharged_by_backend":    bySolver,
-		"solver_wall_s":            round2(solverSecs),
-		"cover_queries":            len(e.obls) - total,
-		"lemmas":                   r.lemmaList(),
-		"languages":                r.languageList(),
-		"havocked_calls":           sortedKeys(e.havocked),
-		"notes":                    e.notes,
-		"samples":                  r.samples(),
-		"known_findings_hit":       knownHit,
+		// obligations counted as proved or to be proved; the obligations behind the listed known findings are
+		// reported separately (they are undischarged by definition)
+		"obligations":               total - len(knownHit),
+		"known_finding_obligations": len(knownHit),
+		"discharged":                discharged,
+		"checker_cmd":               fmt.Sprintf("/verif/check %s %s  (govc: VC generation over go/ast+go/types of %s; back ends z3-new 5.1.0, z3 4.8.12, cvc5 1.0, reglang derivatives)", r.cfg.ID, r.tier.Name, r.repo),
+		"trusted_base":              r.trustedBase(),
+		"functions_under_contract":  e.verified,
+		"obligations_by_kind":       byKind,
+		"discharged_by_backend":     bySolver,
+		"solver_wall_s":             round2(solverSecs),
+		"cover_queries":             len(e.obls) - total,
+		"lemmas":                    r.lemmaList(),
+		"languages":                 r.languageList(),
+		"havocked_calls":            sortedKeys(e.havocked),
+		"notes":                     e.notes,
+		"samples":                   r.samples(),
+		"known_findings_hit":        knownHit,
 	}
 	for k, v := range r.extraCov {
 		cov[k] = v
